@@ -1,0 +1,26 @@
+//go:build verif
+// +build verif
+
+package fs
+
+// Add-only verification hooks (build tag "verif"): thin wrappers that export what the
+// correspondence harness needs from this package. Nothing in the production code calls them.
+
+// VerifModKey runs the platform's unexported "modKey" (modkey_unix.go / modkey_other.go) on a real path.
+func VerifModKey(path string) (ModKey, error) { return modKey(path) }
+
+// VerifModKeyUnusable is the sentinel error "modKey" returns for a zero or too-new mtime.
+func VerifModKeyUnusable() error { return modKeyUnusable }
+
+// VerifModKeySafetyGap is the constant the too-new test uses (in seconds).
+const VerifModKeySafetyGap = modKeySafetyGap
+
+// VerifMakeModKey builds a key from explicit stat data (the fields are unexported).
+func VerifMakeModKey(inode uint64, size int64, mtimeSec int64, mtimeNsec int64, mode uint32, uid uint32) ModKey {
+	return ModKey{inode: inode, size: size, mtime_sec: mtimeSec, mtime_nsec: mtimeNsec, mode: mode, uid: uid}
+}
+
+// VerifModKeyFields returns the fields of a key.
+func VerifModKeyFields(k ModKey) (inode uint64, size int64, mtimeSec int64, mtimeNsec int64, mode uint32, uid uint32) {
+	return k.inode, k.size, k.mtime_sec, k.mtime_nsec, k.mode, k.uid
+}
